@@ -47,3 +47,35 @@ def blocks(data, ecc, B):
 
 def is_codeword(data, ecc, B, k):
     return all(not any(syndromes(w, k)) for w in blocks(data, ecc, B))
+
+
+def solve(mat, rhs):
+    """Gaussian elimination over GF(256); returns a solution or None"""
+    n = len(rhs)
+    m = [row[:] + [rhs[i]] for i, row in enumerate(mat)]
+    for col in range(n):
+        piv = next((r for r in range(col, n) if m[r][col]), None)
+        if piv is None:
+            return None
+        m[col], m[piv] = m[piv], m[col]
+        inv = INV[m[col][col]]
+        m[col] = [mul(x, inv) for x in m[col]]
+        for r in range(n):
+            if r != col and m[r][col]:
+                f = m[r][col]
+                m[r] = [x ^ mul(f, y) for x, y in zip(m[r], m[col])]
+    return [m[i][n] for i in range(n)]
+
+
+def zero_leading_syndromes(word, k, m, positions):
+    """change `word` (one block, highest degree first) at `positions` (len m) so that its first m syndromes vanish"""
+    n = len(word)
+    s = syndromes(word, k)[:m]
+    mat = [[power(ALPHA_POW[j], n - 1 - p) for p in positions] for j in range(1, m + 1)]
+    x = solve(mat, s)
+    if x is None:
+        return None
+    w = list(word)
+    for p, v in zip(positions, x):
+        w[p] ^= v
+    return w
